@@ -445,6 +445,37 @@ func generate(repo string, m Module) (string, []string) {
 				fmt.Fprintf(&b, "-- %s %s %s\ndef %s : List (Rate × Rate) := %s\n", s.File, s.Func, s.Sel, s.Name, body)
 				return
 			}
+			if strings.HasPrefix(s.Ret, "calls:") {
+				f, err := parse(repo, s.File)
+				if err != nil {
+					panic(trErr{err.Error()})
+				}
+				fd := findFunc(f, s.Func)
+				if fd == nil {
+					panic(trErr{"function " + s.Func + " not found in " + s.File})
+				}
+				prefixes := strings.Split(strings.TrimPrefix(s.Ret, "calls:"), ",")
+				var rows []string
+				ast.Inspect(fd.Body, func(n ast.Node) bool {
+					c, ok := n.(*ast.CallExpr)
+					if !ok {
+						return true
+					}
+					fn := exprString(c.Fun)
+					for _, p := range prefixes {
+						if strings.HasPrefix(fn, p) {
+							var args []string
+							for _, a := range c.Args {
+								args = append(args, strconv.Quote(exprString(a)))
+							}
+							rows = append(rows, fmt.Sprintf("(%s, [%s])", strconv.Quote(fn), strings.Join(args, ", ")))
+						}
+					}
+					return true
+				})
+				fmt.Fprintf(&b, "-- %s %s: calls in source order\ndef %s : List (String × List String) := [%s]\n", s.File, s.Func, s.Name, strings.Join(rows, ", "))
+				return
+			}
 			e := locate(repo, s)
 			if s.Ret == "text" {
 				fmt.Fprintf(&b, "-- %s %s %s\ndef %s : String := %s\n", s.File, s.Func, s.Sel, s.Name, strconv.Quote(exprString(e)))
